@@ -4,7 +4,12 @@ the flow-controlled pipe delivers every packet once, in order.
 Monitors:
   queue   lock-step reference model beside the real DataPacketQueue over random
           histories of enqueue / completion report / flush / drain waiters
+  queue/fault   the same model while the send callback raises for chosen send calls (error path at the
+          hand-over): credits, FIFO, no-stall and drain judged on what was actually handed over
+  queue/bursts  one connection used for several bursts with idle periods in between; drain() is judged
+          on return too (nothing of the connection may be in flight or queued when it returns)
   pipe    FlowControlAsyncPipe under random write/pause/resume/sink-progress
+  pipe2   the pipe with zero-length packets (first / last / only), settle points, repeated pause/resume cycles
   rig     two/three devices streaming over tiny controller buffers, one link
           dropped mid-stream; credit ledger computed from the HCI tap log
   hostwire a real Host initialised by its own reset() against a real Controller with three
@@ -29,11 +34,27 @@ RULE = ('seeded random histories; a queue history is non-trivial when it had >=2
         'hostwire histories (Host.reset() against a Controller with three different pools, then '
         'hand-played connection / completion / disconnection events, optionally a second reset with '
         'another geometry) are non-trivial when a buffer-full wait was observed and >=2 pools carried '
-        'packets; distinct = distinct (geometries, operation sequence)')
+        'packets; distinct = distinct (geometries, operation sequence). Second families: queue histories '
+        'whose send callback raises for 1-3 consecutive send calls at a random position (one or two windows), '
+        'non-trivial when a hand-over actually raised; queue histories with 2-4 bursts on one connection that '
+        'was idle in between, drain() waiters on every burst; half of both with real HCI_AclDataPacket objects of '
+        'payload length 0/1/5/27; pipe histories with zero-length packets (first, last, only, between), settle '
+        'points and 2-4 pause/fill/resume cycles on the same pipe; distinct = distinct operation sequence')
 ASSUMPTIONS = [
     'an over-report for handle h of n packets is taken to complete min(n, in-flight[h]) packets; '
     'reports for unknown handles complete nothing',
-    'queued/completed/pending are compared with the model only in histories without over-reports',
+    'queued/completed/pending are compared with the model only in histories without over-reports and without a '
+    'send callback that raised',
+    'a send callback that raises aborts the queue operation that called it (the exception reaches the caller) and '
+    'the packet being handed over is lost: it was never given to the controller, holds no credit and is never '
+    'completed; a later second hand-over attempt of that packet is tolerated. The no-stall clause is not judged for '
+    'the aborted operation itself (counted as queue_stall_not_judged_right_after_raise) but from the next queue '
+    'operation on (an enqueue that follows at once)',
+    'drain(h) that returns normally must find nothing of h in flight or queued at that moment (checked within three '
+    'loop turns of the operation that let it return); drain() raising ValueError for a handle that never had a '
+    'packet handed over is accepted',
+    'pipe settle point: pump started, pipe not paused, the sink\'s drain released on every loop turn for '
+    '20 x backlog + 30 turns => everything written must have reached the sink',
     'hostwire: a pool\'s capacity is what the controller wrote into its (LE_)Read_Buffer_Size[_V2] Command '
     'Complete; a zero LE length/count means LE links use the BR/EDR pool; the controller frees the buffers of '
     'a handle when it reports its disconnection (or the termination of its BIG); every link is gone before '
@@ -45,11 +66,18 @@ HOSTWIRE_MIN = {'hostwire_histories': 2400, 'hostwire_packets': 100000, 'hostwir
                 'hostwire_packets_after_second_reset': 40000, 'hostwire_disconnects_outstanding': 6000,
                 'hostwire_disconnects_freeing_for_others': 2000, 'hostwire_full_waits': 90000,
                 'hostwire_drain_waiters': 6000, 'hostwire_nocp_events': 25000, 'hostwire_nocp_multi_pool': 5000}
+# second families (send callback raises; later bursts; zero-length packets): deciding counters, about half of a quick run
+FAMILY2_MIN = {'queue_send_raises': 4000, 'queue_send_raises_in_on_packets_completed': 900,
+               'queue_states_judged_after_send_raised': 30000, 'queue_later_bursts': 2300,
+               'drain_returns_judged_called_with_packets_in_flight': 28000, 'drain_returns_judged_on_later_burst': 10000,
+               'queue_zero_length_acl_handed_over': 11000, 'pipe_zero_length_writes': 9000,
+               'pipe_settles_zero_length_last': 2200, 'pipe_settles_zero_length_first': 2000,
+               'pipe_settles_only_zero_length': 1000, 'pipe_later_cycles': 1200}
 MIN_EVENTS = {
     'quick': {'queue_ops': 300000, 'pipe_writes': 15000, 'pipe_restarts': 600, 'rig_acl_packets': 1500, 'drain_waiters': 40000,
-              **HOSTWIRE_MIN},
+              **HOSTWIRE_MIN, **FAMILY2_MIN},
     'thorough': {'queue_ops': 5000000, 'pipe_writes': 300000, 'pipe_restarts': 15000, 'rig_acl_packets': 15000, 'drain_waiters': 500000,
-                 **{k: 16 * v for k, v in HOSTWIRE_MIN.items()}},
+                 **{k: 16 * v for k, v in HOSTWIRE_MIN.items()}, **{k: 20 * v for k, v in FAMILY2_MIN.items()}},
 }
 CASE_TIMEOUT = 600
 
@@ -60,6 +88,14 @@ def plan(tier, seed):
     per = 150 if tier == 'quick' else 800
     for i in range(nq):
         cases.append({'kind': 'queue', 'seed': seed * 100003 + i, 'histories': per})
+    # second family: the send callback raises (error path at the hand-over); later bursts on an idle connection
+    nq2 = 64 if tier == 'quick' else 320
+    for i in range(nq2):
+        cases.append({'kind': 'queue', 'mode': 'fault', 'seed': seed * 100003 + 7000000 + i, 'histories': per})
+    for i in range(nq2 // 2):
+        cases.append({'kind': 'queue', 'mode': 'bursts', 'seed': seed * 100003 + 8000000 + i, 'histories': per // 2})
+    for i in range(32 if tier == 'quick' else 320):
+        cases.append({'kind': 'pipe2', 'seed': seed * 100003 + 9000000 + i, 'histories': 150 if tier == 'quick' else 400})
     npipe = 64 if tier == 'quick' else 320
     for i in range(npipe):
         cases.append({'kind': 'pipe', 'seed': seed * 100003 + i, 'histories': 40 if tier == 'quick' else 200})
@@ -86,7 +122,27 @@ class Pkt:
         return f'P{self.pid}@{self.handle}'
 
 
-async def queue_history(rng: random.Random, r: R, hist_id):
+class SendFailed(OSError):
+    """what the harness' send callback raises (a transport write error at the hand-over)"""
+
+
+class Waiter:
+    __slots__ = ('h', 'task', 'touched_zero', 'later_burst', 'inflight_at_call')
+
+    def __init__(self, h, task, touched_zero, later_burst, inflight_at_call):
+        self.h, self.task, self.touched_zero, self.later_burst = h, task, touched_zero, later_burst
+        self.inflight_at_call = inflight_at_call
+
+
+async def queue_history(rng: random.Random, r: R, hist_id, mode=None):
+    """mode None: the original random histories.
+    mode 'fault': the send callback raises for chosen send calls (1-3 consecutive calls, at a random
+      position of the history, one or two windows): the packet whose hand-over raised was never given
+      to the controller, so it holds no credit, and everything else is judged as before.
+    mode 'bursts': one connection used for 2-4 bursts with an idle period (nothing outstanding) between
+      them and drain() waiters on every burst.
+    In both new modes half of the histories queue real HCI_AclDataPacket objects (payload lengths
+    0, 0, 1, 5, 27) and the send callback serialises them like Host.send_hci_packet does."""
     from bumble.host import DataPacketQueue
 
     max_in_flight = rng.choice([1, 1, 2, 2, 3, 4, 8])
@@ -95,7 +151,42 @@ async def queue_history(rng: random.Random, r: R, hist_id):
     length = rng.randint(3, 40)
     style = rng.choice(['mixed', 'hog-flush', 'mixed', 'overreport'])
     sent: list[Pkt] = []
-    q = DataPacketQueue(27, max_in_flight, sent.append)
+    raised: list[Pkt] = []
+    fault_sends: set[int] = set()
+    send_calls = [0]
+    real_packets = False
+    by_obj: dict[int, Pkt] = {}
+    keep_alive = []
+    if mode is not None:
+        real_packets = rng.random() < 0.5
+        if mode == 'fault':
+            r.ev('queue_fault_histories')
+            for _w in range(rng.choice([1, 1, 2])):
+                start = rng.randint(0, length)
+                for k in range(rng.choice([1, 1, 1, 2, 3])):
+                    fault_sends.add(start + k)
+
+    def send(obj):
+        k = send_calls[0]
+        send_calls[0] += 1
+        p = obj
+        if real_packets:
+            p = by_obj[id(obj)]
+            raw = bytes(obj)
+            r.ev('queue_real_packets_serialised')
+            dl = len(obj.data)
+            if dl == 0:
+                r.ev('queue_zero_length_acl_handed_over')
+            if not (raw[0] == 2 and int.from_bytes(raw[1:3], 'little') & 0xFFF == p.handle
+                    and int.from_bytes(raw[3:5], 'little') == dl and len(raw) == 5 + dl):
+                r.bad('queue/packet-altered', f'{p} serialises to {raw.hex()} (payload length {dl})')
+        if k in fault_sends:
+            raised.append(p)
+            r.ev('queue_send_raises')
+            raise SendFailed('transport write failed')
+        sent.append(p)
+
+    q = DataPacketQueue(27, max_in_flight, sent.append if mode is None else send)
 
     # model
     submitted: dict[int, list[int]] = {h: [] for h in handles}  # pids in order
@@ -109,9 +200,14 @@ async def queue_history(rng: random.Random, r: R, hist_id):
     m_completed = 0
     next_pid = 0
     ops = []
-    waiters: list[tuple[int, asyncio.Task, int]] = []  # (handle, task, generation)
+    waiters: list[Waiter] = []
     nontrivial = False
     sent_cursor = 0
+    faulted = False          # a hand-over has raised in this history
+    lost: set[int] = set()   # pids whose hand-over raised (never given to the controller)
+    sent_since_flush: dict[int, int] = {h: 0 for h in handles}
+    been_idle: dict[int, int] = {h: 0 for h in handles}  # times the handle went back to nothing outstanding since its last flush
+    fsuffix = lambda: '/after-send-raised' if faulted else ''
 
     def absorb_sent():
         nonlocal sent_cursor
@@ -125,6 +221,12 @@ async def queue_history(rng: random.Random, r: R, hist_id):
                 ok = False
                 continue
             ever_sent.add(p.pid)
+            if p.pid in lost:
+                # a second hand-over attempt of a packet whose first hand-over raised: tolerated
+                lost.discard(p.pid)
+                r.ev('queue_resent_after_raise')
+                inflight[p.handle] += 1
+                continue
             if p.pid in dead:
                 r.bad('queue/sent-after-flush', f'{p} sent after its connection was flushed; ops={ops}')
                 ok = False
@@ -139,21 +241,57 @@ async def queue_history(rng: random.Random, r: R, hist_id):
                 w.pop(0)
             inflight[p.handle] += 1
             sent_seen[p.handle].append(p.pid)
+            sent_since_flush[p.handle] += 1
         return ok
 
-    def check_state(after):
+    def absorb_raised():
+        """the packet whose hand-over raised: it was the next of its connection, it is gone from the queue
+        and the controller never got it (no credit, never completed)"""
+        nonlocal faulted
+        while raised:
+            p = raised.pop(0)
+            faulted = True
+            ops.append(('send-raised', p.handle, p.pid))
+            if p.pid in lost:
+                r.ev('queue_rehandover_raised_again')   # a retried hand-over that raised again: still not handed over
+                continue
+            if p.pid in ever_sent:
+                r.bad('queue/sent-twice/after-send-raised', f'{p} handed over again; ops={ops}')
+                continue
+            if p.pid in dead:
+                r.bad('queue/sent-after-flush', f'{p} handed over after its connection was flushed; ops={ops}')
+                continue
+            w = waiting[p.handle]
+            if not w or w[0] != p.pid:
+                r.bad('queue/order/after-send-raised', f'{p} handed over out of per-connection order (expected {w[:1]}); ops={ops}')
+                if p.pid in w:
+                    w.remove(p.pid)
+            else:
+                w.pop(0)
+            lost.add(p.pid)
+
+    def check_state(after, skip_stall=False):
         absorb_sent()
+        absorb_raised()
         total = sum(inflight.values())
         nwait = sum(len(w) for w in waiting.values())
         r.ev('oracle_evals')
+        if faulted:
+            r.ev('queue_states_judged_after_send_raised')
         if total > max_in_flight:
-            r.bad('queue/credit-exceeded',
+            r.bad('queue/credit-exceeded' + fsuffix(),
                   f'{total} in flight > max {max_in_flight} after {after}; ops={ops}')
-        if nwait and total < max_in_flight:
-            r.bad('queue/stall' + ('/after-flush' if after[0] == 'flush' else
+        if skip_stall:
+            r.ev('queue_stall_not_judged_right_after_raise')
+        elif nwait and total < max_in_flight:
+            r.bad('queue/stall' + ('/after-send-raised' if faulted else
+                                   '/after-flush' if after[0] == 'flush' else
                                    '/after-over-report' if over_reported else ''),
                   f'{nwait} waiting with {max_in_flight - total} free credits after {after}; ops={ops}')
-        if not over_reported:
+        for h in handles:
+            if sent_since_flush[h] and inflight[h] == 0 and not waiting[h] and after[0] in ('complete', 'over') and after[1] == h:
+                been_idle[h] += 1
+        if not over_reported and not faulted:
             if (q.queued, q.completed, q.pending) != (m_queued, m_completed, m_queued - m_completed):
                 r.bad('queue/counters',
                       f'queued/completed/pending={(q.queued, q.completed, q.pending)} model='
@@ -175,20 +313,139 @@ async def queue_history(rng: random.Random, r: R, hist_id):
 
     async def check_waiters(after):
         await turn()
-        for (h, task, snap) in list(waiters):
+        for w in list(waiters):
+            h, task = w.h, w.task
             if task.done():
-                waiters.remove((h, task, snap))
+                waiters.remove(w)
                 r.ev('drain_completions')
-                if task.result() == 'done' and outstanding(h) and inflight[h]:
-                    r.ev('drain_returned_with_packets_in_flight')
+                if task.result() == 'done':
+                    # drain() returned: every packet of the connection must have been completed or discarded
+                    r.ev('oracle_evals')
+                    r.ev('drain_returns_judged')
+                    if w.inflight_at_call:
+                        r.ev('drain_returns_judged_called_with_packets_in_flight')
+                    if w.later_burst:
+                        r.ev('drain_returns_judged_on_later_burst')
+                    if outstanding(h):
+                        r.ev('drain_returned_with_packets_outstanding')
+                        # discriminating class: did the connection's in-flight count touch 0 while this waiter
+                        # waited (packets of the connection still queued behind it), or was it never 0?
+                        cls = 'packets-still-queued' if w.touched_zero else 'in-flight-never-zero'
+                        if w.later_burst and not w.touched_zero:
+                            cls += '/later-burst'
+                        r.bad(f'queue/drain-early/{cls}',
+                              f'drain({h:#x}) returned after {after} with {inflight[h]} packets in flight and '
+                              f'{len(waiting[h])} queued for that connection ({w.inflight_at_call} in flight when it was '
+                              f'called; idle {been_idle[h]}x before); ops={ops}')
                 continue
             # still pending: allowed only while the connection has something in flight
             r.ev('oracle_evals')
             if inflight[h] == 0 and len(waiting[h]) == 0:
-                r.bad('queue/drain-pending',
+                r.bad('queue/drain-pending' + fsuffix(),
                       f'drain({h:#x}) still pending although nothing outstanding after {after}; ops={ops}')
                 task.cancel()
-                waiters.remove((h, task, snap))
+                waiters.remove(w)
+
+    def new_packet(h):
+        nonlocal next_pid, m_queued
+        p = Pkt(next_pid, h)
+        next_pid += 1
+        submitted[h].append(p.pid)
+        waiting[h].append(p.pid)
+        m_queued += 1
+        ops.append(('enq', h, p.pid))
+        if not real_packets:
+            return p
+        from bumble import hci
+        data = bytes([p.pid & 0xFF]) * rng.choice([0, 0, 1, 5, 27])
+        obj = hci.HCI_AclDataPacket(connection_handle=h, pb_flag=0, bc_flag=0, data_total_length=len(data), data=data)
+        by_obj[id(obj)] = p
+        keep_alive.append(obj)
+        if not data:
+            r.ev('queue_zero_length_acl_enqueued')
+        return obj
+
+    def call(fn, *args):
+        """one queue operation; True when the send callback raised out of it"""
+        try:
+            fn(*args)
+            return False
+        except SendFailed:
+            r.ev('queue_ops_aborted_by_send_raise')
+            r.ev('queue_send_raises_in_' + fn.__name__)
+            return True
+
+    def zero_touch(h):
+        for w in waiters:
+            if w.h == h:
+                w.touched_zero = True
+
+    async def judged(fn, *args):
+        """run one queue operation and judge the state after it. When the send callback raised, the
+        operation was aborted with that exception: the stall clause is judged again from the next queue
+        operation on (an enqueue that follows at once, as a caller that carries on would do)."""
+        aborted = call(fn, *args)
+        r.ev('queue_ops')
+        check_state(ops[-1], skip_stall=aborted)
+        await check_waiters(ops[-1])
+        n = 0
+        while aborted and n < 8:
+            n += 1
+            obj = new_packet(rng.choice(handles))
+            aborted = call(q.enqueue, obj, ops[-1][1])
+            r.ev('queue_ops')
+            r.ev('queue_kicks_after_raise')
+            check_state(ops[-1], skip_stall=aborted)
+            await check_waiters(ops[-1])
+
+    def add_waiter(h):
+        ops.append(('drain', h))
+        t = asyncio.ensure_future(drain_waiter(h))
+        later = been_idle[h] >= 1 and inflight[h] > 0
+        waiters.append(Waiter(h, t, inflight[h] == 0, later, inflight[h]))
+        r.ev('drain_waiters')
+        if later:
+            r.ev('drain_waiters_on_later_burst')
+
+    if mode == 'bursts':
+        # one connection, 2-4 bursts, idle in between; the other connections carry background traffic
+        r.ev('queue_burst_histories')
+        hb = handles[0]
+        for b in range(rng.choice([2, 3, 3, 4])):
+            within = rng.random() < 0.6   # burst fits into the free credits: in-flight never touches 0 before the end
+            m = rng.randint(1, max_in_flight) if within else rng.randint(1, 2 * max_in_flight + 1)
+            for _ in range(m):
+                await judged(q.enqueue, new_packet(hb), hb)
+                if len(handles) > 1 and rng.random() < 0.3 and not within:
+                    ho = rng.choice(handles[1:])
+                    await judged(q.enqueue, new_packet(ho), ho)
+            for _ in range(rng.choice([1, 1, 2])):
+                add_waiter(hb)
+                r.ev('queue_ops')
+                check_state(ops[-1])
+                await check_waiters(ops[-1])
+            r.ev('queue_bursts')
+            if b >= 1:
+                r.ev('queue_later_bursts')
+            # completions until the burst connection has nothing outstanding
+            for _ in range(1000):
+                hs = [h for h in handles if inflight[h]]
+                if not outstanding(hb) or not hs:
+                    break
+                h = rng.choice(hs)
+                n = rng.randint(1, inflight[h])
+                if n == inflight[h]:
+                    zero_touch(h)
+                inflight[h] -= n
+                m_completed += n
+                ops.append(('complete', h, n))
+                await judged(q.on_packets_completed, n, h)
+                if rng.random() < 0.2 and outstanding(hb):
+                    add_waiter(hb)
+                    r.ev('queue_ops')
+                    check_state(ops[-1])
+                    await check_waiters(ops[-1])
+        length = 0
 
     for step in range(length):
         if style == 'hog-flush' and step < max_in_flight + 2:
@@ -199,6 +456,41 @@ async def queue_history(rng: random.Random, r: R, hist_id):
                              [8, 6, 1.2 if style != 'hog-flush' else 3, 2, 0.4,
                               1.5 if style == 'overreport' else 0])[0]
             h = rng.choice(handles)
+        if mode is not None:
+            # same operations, run through judged() (the send callback may raise out of any of them)
+            if op == 'enq':
+                await judged(q.enqueue, new_packet(h), h)
+            elif op == 'complete':
+                if inflight[h] == 0:
+                    continue
+                n = rng.randint(1, inflight[h])
+                if n == inflight[h]:
+                    zero_touch(h)
+                inflight[h] -= n
+                m_completed += n
+                ops.append(('complete', h, n))
+                await judged(q.on_packets_completed, n, h)
+            elif op == 'flush':
+                if sum(len(w) for hh, w in waiting.items() if hh != h):
+                    nontrivial = True
+                m_completed += inflight[h] + len(waiting[h])
+                dead.update(waiting[h])
+                waiting[h] = []
+                inflight[h] = 0
+                been_idle[h] = 0
+                sent_since_flush[h] = 0
+                ops.append(('flush', h))
+                await judged(q.flush, h)
+            elif op == 'drain':
+                add_waiter(h)
+                r.ev('queue_ops')
+                check_state(ops[-1])
+                await check_waiters(ops[-1])
+            elif op == 'unknown':
+                n = rng.randint(1, 3)
+                ops.append(('unknown', 0x99, n))
+                await judged(q.on_packets_completed, n, 0x99)
+            continue
         if op == 'enq':
             p = Pkt(next_pid, h)
             next_pid += 1
@@ -211,6 +503,8 @@ async def queue_history(rng: random.Random, r: R, hist_id):
             if inflight[h] == 0:
                 continue
             n = rng.randint(1, inflight[h])
+            if n == inflight[h]:
+                zero_touch(h)
             inflight[h] -= n
             m_completed += n
             ops.append(('complete', h, n))
@@ -222,6 +516,7 @@ async def queue_history(rng: random.Random, r: R, hist_id):
             if sum(len(w) for w in waiting.values()):
                 nontrivial = True
             over_reported = True
+            zero_touch(h)
             inflight[h] = 0
             ops.append(('over', h, n))
             q.on_packets_completed(n, h)
@@ -238,13 +533,12 @@ async def queue_history(rng: random.Random, r: R, hist_id):
             dead.update(waiting[h])
             waiting[h] = []
             inflight[h] = 0
+            been_idle[h] = 0
+            sent_since_flush[h] = 0
             ops.append(('flush', h))
             q.flush(h)
         elif op == 'drain':
-            ops.append(('drain', h))
-            t = asyncio.ensure_future(drain_waiter(h))
-            waiters.append((h, t, 0))
-            r.ev('drain_waiters')
+            add_waiter(h)
         r.ev('queue_ops')
         check_state(ops[-1])
         await check_waiters(ops[-1])
@@ -256,23 +550,34 @@ async def queue_history(rng: random.Random, r: R, hist_id):
             break
         h = rng.choice(hs)
         n = rng.randint(1, inflight[h])
+        if n == inflight[h]:
+            zero_touch(h)
         inflight[h] -= n
         m_completed += n
         ops.append(('complete', h, n))
+        if mode is not None:
+            await judged(q.on_packets_completed, n, h)
+            continue
         q.on_packets_completed(n, h)
         check_state(ops[-1])
         await check_waiters(ops[-1])
     left = sum(len(w) for w in waiting.values())
     r.ev('oracle_evals')
     if left:
-        r.bad('queue/stall/final', f'{left} packets never sent although every buffer was returned; ops={ops}')
-    for (h, task, _s) in waiters:
-        if not task.done():
-            task.cancel()
-    if nconn >= 2 or nontrivial:
+        r.bad('queue/stall/final' + fsuffix(), f'{left} packets never sent although every buffer was returned; ops={ops}')
+    for w in waiters:
+        if not w.task.done():
+            w.task.cancel()
+    if mode == 'fault':
+        if faulted:
+            r.ev('queue_fault_histories_with_raise')
+            r.sig('queue-fault', max_in_flight, nconn, tuple(ops))
+    elif mode == 'bursts':
+        r.sig('queue-bursts', max_in_flight, nconn, tuple(ops))
+    elif nconn >= 2 or nontrivial:
         r.sig('queue', max_in_flight, nconn, tuple(ops))
     r.evals()
-    return {'max_in_flight': max_in_flight, 'handles': handles, 'ops': ops[:40]}
+    return {'max_in_flight': max_in_flight, 'handles': handles, 'mode': mode, 'ops': ops[:40]}
 
 
 # =============================================================================
@@ -373,6 +678,205 @@ async def pipe_history(rng: random.Random, r: R):
         r.sig('pipe', threshold, use_drain, gate_mode, tuple(ops))
     r.evals()
     return {'threshold': threshold, 'ops': ops, 'writes': len(written)}
+
+
+# =============================================================================
+# pipe, second family: zero-length packets (first / last / only / between), settle points
+# (pipe not paused, sink making progress => everything written must be out), and the same
+# pipe paused/resumed/filled for several cycles
+# =============================================================================
+TINY_PATTERNS = [[0], [0, 0], [0, 3], [3, 0], [3, 0, 2], [0, 3, 0], [2, 2, 0], [0, 0, 1], [1, 0, 0], [1], [0, 0, 0]]
+
+
+async def pipe_history2(rng: random.Random, r: R):
+    from bumble.utils import FlowControlAsyncPipe
+
+    out = []
+    gate = asyncio.Event()
+    use_drain = rng.random() < 0.7
+    gate_mode = rng.choice(['open', 'stepped'])
+    if gate_mode == 'open':
+        gate.set()
+
+    async def drain_sink():
+        if gate_mode == 'stepped':
+            await gate.wait()
+            gate.clear()
+        else:
+            await asyncio.sleep(0)
+
+    src = {'paused': False}
+    threshold = rng.choice([0, 0, 1, 10, 100])
+    pipe = FlowControlAsyncPipe(lambda: src.__setitem__('paused', True), lambda: src.__setitem__('paused', False),
+                                out.append, drain_sink if use_drain else None, threshold)
+    if rng.random() < 0.8:
+        pipe.start()
+        late_start = False
+    else:
+        late_start = True   # packets written before the pump is started
+    written = []
+    ops = []
+    failed = False
+    shape = rng.choice(['tiny', 'tiny', 'cycles', 'random'])
+    lengths = rng.choice([[0, 0, 1, 2, 20], [0, 1], [0, 0, 0, 5], [0]])
+
+    def write(length=None):
+        if length is None:
+            length = rng.choice(lengths)
+        pk = bytes([len(written) & 0xFF]) * length
+        written.append(pk)
+        ops.append(f'w{length}')
+        pipe.write(pk)
+        r.ev('pipe_writes')
+        r.ev('pipe2_writes')
+        if not length:
+            r.ev('pipe_zero_length_writes')
+
+    def prefix_ok():
+        r.ev('oracle_evals')
+        if out != written[:len(out)]:
+            r.bad('pipe/order' + ('/zero-length' if b'' in written[:len(out) + 1] else ''),
+                  f'sink got lengths {[len(p) for p in out]} for writes {[len(p) for p in written]}; ops={ops} '
+                  f'threshold={threshold}')
+            return False
+        return True
+
+    async def settle(label):
+        """pipe started and not paused, the sink makes progress: everything written must come out"""
+        nonlocal failed
+        if pipe.paused or pipe.pump_task is None:
+            return
+        for _ in range(20 * (len(written) - len(out)) + 30):
+            gate.set()
+            await asyncio.sleep(0)
+            if len(out) >= len(written):
+                break
+        ops.append('settle')
+        r.ev('pipe_settles')
+        if written and not written[-1]:
+            r.ev('pipe_settles_zero_length_last')
+        if written and not written[0]:
+            r.ev('pipe_settles_zero_length_first')
+        if written and not any(written):
+            r.ev('pipe_settles_only_zero_length')
+        r.ev('oracle_evals')
+        if len(out) < len(written) and out == written[:len(out)]:
+            head = written[len(out)]
+            r.bad('pipe/stall' + ('/zero-length-at-head' if not head else '') + f'/{label}',
+                  f'{len(written) - len(out)} packets (lengths {[len(p) for p in written[len(out):]]}) stay in the pipe '
+                  f'although it is not paused and the sink accepts data; ops={ops} threshold={threshold} '
+                  f'drain_sink={use_drain} gate={gate_mode}')
+            failed = True
+        elif not prefix_ok():
+            failed = True
+
+    if shape == 'tiny':
+        pat = rng.choice(TINY_PATTERNS)
+        for i, length in enumerate(pat):
+            write(length)
+            for _ in range(rng.choice([0, 0, 1, 3])):
+                gate.set()
+                await asyncio.sleep(0)
+            if rng.random() < 0.15:
+                pipe.pause()
+                ops.append('pause')
+                await asyncio.sleep(0)
+                pipe.resume()
+                ops.append('resume')
+        if late_start:
+            pipe.start()
+            ops.append('start')
+        await settle('tiny')
+    elif shape == 'cycles':
+        if late_start:
+            pipe.start()
+        ncycles = rng.choice([2, 3, 3, 4])
+        for c in range(ncycles):
+            if failed:
+                break
+            pause_first = rng.random() < 0.7
+            if pause_first:
+                pipe.pause()
+                ops.append('pause')
+            for _ in range(rng.randint(1, 5)):
+                write()
+                if rng.random() < 0.3:
+                    gate.set()
+                    await asyncio.sleep(0)
+            if not pause_first and rng.random() < 0.5:
+                pipe.pause()
+                ops.append('pause')
+                write()
+            for _ in range(rng.choice([0, 1, 2])):
+                gate.set()
+                await asyncio.sleep(0)
+            r.ev('oracle_evals')
+            prefix_ok()
+            pipe.resume()
+            ops.append('resume')
+            r.ev('pipe_pause_resume_cycles')
+            if c >= 1:
+                r.ev('pipe_later_cycles')
+            await settle('later-cycle' if c >= 1 else 'first-cycle')
+    else:
+        if late_start:
+            pipe.start()
+        for i in range(rng.randint(2, 25)):
+            if failed:
+                break
+            op = rng.choices(['write', 'burst', 'pause', 'resume', 'step', 'yield', 'restart', 'settle'],
+                             [5, 2, 1, 1.5, 3, 3, 0.5, 1.5])[0]
+            if op == 'write':
+                write()
+            elif op == 'burst':
+                for _ in range(rng.randint(2, 6)):
+                    write()
+            elif op == 'pause':
+                pipe.pause()
+            elif op == 'resume':
+                pipe.resume()
+            elif op == 'restart':
+                pipe.stop()
+                for _ in range(rng.choice([0, 0, 1, 2])):
+                    await asyncio.sleep(0)
+                pipe.start()
+                r.ev('pipe_restarts')
+            elif op == 'step':
+                gate.set()
+                await asyncio.sleep(0)
+            elif op == 'settle':
+                await settle('random')
+                continue
+            else:
+                for _ in range(rng.randint(1, 3)):
+                    await asyncio.sleep(0)
+            ops.append(op)
+            if not prefix_ok():
+                failed = True
+    # finish: resume, everything must be out (bounded)
+    if not failed:
+        pipe.resume()
+        for _ in range(20 * len(written) + 50):
+            gate.set()
+            await asyncio.sleep(0)
+            if len(out) >= len(written):
+                break
+        r.ev('oracle_evals')
+        if out != written:
+            missing = written[len(out):]
+            zl = '/zero-length' if missing and not any(missing) else ''
+            if len(out) < len(written) and out == written[:len(out)]:
+                r.bad('pipe/lost' + zl, f'{len(missing)} packets (lengths {[len(p) for p in missing]}) never delivered '
+                                        f'after resume; ops={ops} threshold={threshold}')
+            elif len(out) > len(written):
+                r.bad('pipe/duplicated' + ('/zero-length' if b'' in written else ''),
+                      f'sink got {len(out)} packets for {len(written)} writes; ops={ops}')
+            else:
+                prefix_ok()
+    pipe.stop()
+    r.sig('pipe2', shape, threshold, use_drain, gate_mode, tuple(ops))
+    r.evals()
+    return {'threshold': threshold, 'shape': shape, 'ops': ops[:40], 'writes': len(written)}
 
 
 # =============================================================================
@@ -665,8 +1169,12 @@ async def run_case(case, r: R):
         await hostwire_case(case, r)
     elif case['kind'] == 'queue':
         for i in range(case['histories']):
-            s = await queue_history(rng, r, i)
+            s = await queue_history(rng, r, i, case.get('mode'))
         r.sample = {'kind': 'queue', **s}
+    elif case['kind'] == 'pipe2':
+        for i in range(case['histories']):
+            s = await pipe_history2(rng, r)
+        r.sample = {'kind': 'pipe2', **s}
     elif case['kind'] == 'pipe':
         for i in range(case['histories']):
             s = await pipe_history(rng, r)
@@ -681,7 +1189,10 @@ LEVEL_TEXT = ('Lock-step reference model beside the real DataPacketQueue over ~1
               '2-3 device rigs with 1-4 controller buffers and a link dropped mid-stream; per-pool credit / '
               'FIFO / no-stall / drain ledger over 2400 (quick) / 38400 (thorough) histories of a real Host '
               'reset against a Controller with three different buffer pools (dedicated or shared LE, ISO, '
-              'v1/v2 commands), hand-played link life-cycle and a second reset with another geometry. Held = no '
+              'v1/v2 commands), hand-played link life-cycle and a second reset with another geometry; 9600 (quick) / 2.6x10^5 '
+              '(thorough) queue histories whose send callback raises at a random position, 2400 / 6x10^4 multi-burst '
+              'histories with drain() judged on return (nothing of the connection in flight or queued), 4800 / 1.3x10^5 '
+              'pipe histories with zero-length packets, settle points and repeated pause/resume cycles. Held = no '
               'refuting execution among those observed; this is sampling, not proof.')
 LEVEL_NOTE = ('Trusted: the 60-line model in checks/c04.py, the ledger and hand-written HCI events of '
               'vlib/hostwire.py, the tap/delay pipes of vlib/rig.py, '
